@@ -85,6 +85,9 @@ def do_call(g, c):
     k = c[0]
     if k == 'query':
         return vals(getattr(g, QUERY[c[1]])(mkarg(c[2]), include_source=c[3]))
+    if k == 'query1':          # a caller that asks for the first item only (next(), any(), `in`): used with arguments that must be rejected
+        first = next(iter(getattr(g, QUERY[c[1]])(mkarg(c[2]), include_source=c[3])), None)
+        return [] if first is None else [first.value]
     if k == 'pred':
         return bool(getattr(g, PRED[c[1]])(mkarg(c[2]), mkarg(c[3])))
     if k == 'leaf':
